@@ -9,7 +9,8 @@ Block   = ("h", level, inlines) | ("p", inlines) | ("list", kind, items) | ("dl"
         | ("table", rows, header, caption) | ("pre", [word, ...])
 item    = (inlines, sublist_or_None)                 rows = [[cell]]; cell = ("c", inlines) | ("cb", blocks)
 Inline  = ("t", word) | ("i", inlines) | ("b", inlines) | ("tag", name, inlines) | ("link", target, caption_inlines_or_None)
-        | ("ext", url_word, caption_inlines_or_None) | ("ref", inlines)
+        | ("ext", url_word, caption_inlines_or_None) | ("ref", inlines) | ("refp", [inlines, ...])   (a reference of several paragraphs)
+        | ("refn", name, inlines) | ("refuse", name)      (a named reference and a later use of it)
 """
 import itertools
 
@@ -51,6 +52,17 @@ def library():
     add("p-link-styled-caption", lambda k: ("p", [("link", k(), [("i", [T(k)])])]))
     add("p-ext-named", lambda k: ("p", [T(k), ("ext", k(), [T(k)])]))
     add("p-ref", lambda k: ("p", [T(k), ("ref", [T(k)])]))
+    add("p-ref-2para", lambda k: ("p", [T(k), ("refp", [[T(k), T(k)], [T(k)]]), T(k)]))
+    add("ul-ref-2para", lambda k: ("list", "*", [([T(k), ("refp", [[T(k)], [T(k), ("i", [T(k)])]])], None), ([T(k)], None)]))
+    add("table-ref-3para", lambda k: ("table", [[("c", [T(k), ("refp", [[T(k)], [T(k)], [T(k)]])]), ("c", [T(k)])], [("c", [T(k)]), ("c", [T(k)])]], False, None))
+    def named(k, shape):
+        t0 = T(k)
+        nm = "note-" + t0[1][1:]  # unique inside a document, the same in every document that uses the block at this position
+        if shape == "p":
+            return ("p", [t0, ("refn", nm, [T(k), T(k)]), T(k), ("refuse", nm)])
+        return ("list", "*", [([t0, ("refn", nm, [T(k)])], None), ([T(k), ("refuse", nm)], None)])
+    add("p-ref-named", lambda k: named(k, "p"))
+    add("ul-ref-named", lambda k: named(k, "ul"))
     add("p-italic-link", lambda k: ("p", [("i", [("link", k(), [T(k)])])]))
     add("ul", lambda k: ("list", "*", [([T(k)], None), ([T(k)], None)]))
     add("ol", lambda k: ("list", "#", [([T(k)], None), ([T(k)], None)]))
@@ -140,6 +152,12 @@ def ser_inline(i, v):
         return "[http://example.org/%s %s]" % (i[1], ser_inlines(i[2], v))
     if k == "ref":
         return "<ref>%s</ref>" % ser_inlines(i[1], v)
+    if k == "refn":
+        return '<ref name="%s">%s</ref>' % (i[1], ser_inlines(i[2], v))
+    if k == "refuse":
+        return '<ref name="%s"/>' % i[1]
+    if k == "refp":
+        return "<ref>%s</ref>" % "\n\n".join(ser_inlines(x, v) for x in i[1])
     raise ValueError(k)
 
 
@@ -247,6 +265,11 @@ def denote(doc):
                     inl(i[2], chain + ("NamedURL:" + url,))
             elif k == "ref":
                 inl(i[1], chain + ("Reference",))
+            elif k == "refn":
+                inl(i[2], chain + ("Reference",))
+            elif k == "refp":
+                for x in i[1]:
+                    inl(x, chain + ("Reference",))
 
     def lst(l, chain, depth):
         kind = "ol" if l[1] == "#" else "ul"
